@@ -24,7 +24,7 @@ func init() {
 		Assumptions: []string{"header values stay inside the supported data model (ints within int64, no tags / big numbers)", "float width is not judged (the statement speaks of integers and lengths)"},
 		Real:        []string{"github.com/veraison/go-cose (instrumented copy: same statements, map ranges routed through the simulator)", "github.com/fxamacker/cbor/v2"},
 		Stubs:       []string{"map-iteration order of go-cose's own loops (tape)", "cose.Signer recording wrapper", "entropy source"},
-		QuickRuns:   5000, ThoroughRuns: 200000,
+		QuickRuns:   300000, ThoroughRuns: 5000000,
 	}
 }
 
